@@ -349,7 +349,10 @@ def r11_3(ck):
                             cfg.loops[id(loop)]['body_entry'])
                         memo = [a2 for a2 in extra if dvar not in ' '.join(
                             str(x) for x in a2[1:])]
-                        inside = not memo
+                        # a pre-seeded memo (second argument) makes the
+                        # copies share whatever it lists
+                        inside = not memo and len(c.args) == 1 and \
+                            not c.keywords
             ck.require(copied and inside, 'R11.3', f, d.stmt,
                        "each daughter gets its own deep copy of the "
                        "mother's %s" % nm,
